@@ -324,6 +324,7 @@ Module Concrete.
 
   Definition well_formed (c : case) : bool :=
     forallb (fun s => (1 <=? s)%N && (s <=? 200)%N) (c_sizes c)
+    && (N.of_nat (length (c_sizes c)) <? 100000)%N
     && (c_vis0 c <=? N.of_nat (length (c_sizes c)))%N
     && (0 <=? c_required c)%Z && (c_required c <? 1000)%Z
     && match c_tx c with
